@@ -568,10 +568,15 @@ func c13One(c *h.Ctx, id string, m *reg.Model, r *rand.Rand, k int) {
 		} else if pos == len(b) {
 			posClass = "last"
 		}
-		vl := []int{0, 1, 300}[r.Intn(3)]
+		vl := []int{0, 1, 2, 7, 300}[r.Intn(5)]
+		pay := make([]byte, vl) // the unknown element's value is arbitrary bytes, not a well-formed TLV sequence
+		r.Read(pay)
+		if vl > 0 && r.Intn(4) == 0 {
+			pay[0] = 0xff
+		}
 		// non-critical
 		if nt := c13Pick(used, nonCritCands, r); nt != 0 {
-			ins := tlvwalk.TLV(nt, make([]byte, vl))
+			ins := tlvwalk.TLV(nt, pay)
 			mut := append(append(append([]byte{}, b[:pos]...), ins...), b[pos:]...)
 			seg := r.Intn(3) == 0
 			out, err, pi := parse(mut, false, seg)
@@ -592,7 +597,7 @@ func c13One(c *h.Ctx, id string, m *reg.Model, r *rand.Rand, k int) {
 		}
 		// critical
 		if ct := c13Pick(used, critCands, r); ct != 0 {
-			ins := tlvwalk.TLV(ct, make([]byte, vl))
+			ins := tlvwalk.TLV(ct, pay)
 			mut := append(append(append([]byte{}, b[:pos]...), ins...), b[pos:]...)
 			d := map[string]any{"case": desc, "inserted_type": ct, "inserted_len": vl, "at": pos}
 			_, err, pi := parse(mut, false, false)
